@@ -8,13 +8,15 @@
     operation with the same arguments on the File the handle denotes, with the
     documented rewriting only.  Arguments are arbitrary (the environment is
     universally quantified).
-    _partial: the composed methods (WalkGetAttr below version 2, GetXattr,
-    ListXattrs, ReadAt/WriteAt = C11) are tied as source text only; the result
-    mapping is proved for the client half (C03_returns) and for errors
-    (C03_errno); the handler half of results and the server's walk on failure
-    paths are covered by the differential harness only. *)
-From Coq Require Import NArith String List Bool.
-From P9V Require Import gen.ConstGen gen.ClientGen Client.ClientModel Client.ClientProofs Client.Errs.
+    The composed methods (GetXattr/ListXattrs = xattrwalk + chunked read + clunk,
+    WalkGetAttr below version 2 = Walk + GetAttr, ReadAt/WriteAt = C11's chunk)
+    are modelled as functions in Client/Composed.v (theorems C03_xattr_..., C03_walkgetattr_fallback);
+    their tie to the source is the statement text in the reviewed table.
+    _partial: the handler table (ClientModel.handler_calls) is hand-written and tied
+    by the differential only; the result mapping is proved for the client half
+    (C03_returns) and for errors (C03_errno_...). *)
+From Coq Require Import ZArith NArith String List Bool.
+From P9V Require Import gen.ConstGen gen.ClientGen Client.Chunk Client.ClientModel Client.ClientProofs Client.Errs Client.Composed.
 Import ListNotations.
 Open Scope string_scope.
 
@@ -59,6 +61,15 @@ Print Assumptions C03_version_types.
 Theorem C03_errno_wrapped : forall k e, extract (wrapn k e) = extract e.
 Proof. exact extract_wrapn. Qed.
 Print Assumptions C03_errno_wrapped.
+
+(** chains whose first syscall.Errno is NON-ZERO (errno 0 is not an error value; the code lets a zero
+    syscall.Errno fall through to the os.Err* sentinels, and the model does the same): without a linux.Errno
+    in the chain the first syscall.Errno found is the answer *)
+Theorem C03_errno_first_sys : forall e n, find is_linux e = None -> find is_sys e = Some n -> n <> 0%N -> extract e = n.
+Proof. intros e n Hl Hs Hn. unfold extract. rewrite Hl, Hs. destruct n; congruence. Qed.
+
+Theorem C03_errno_first_linux : forall e n, find is_linux e = Some n -> extract e = n.
+Proof. intros e n Hl. unfold extract. now rewrite Hl. Qed.
 
 (** ... a linux.Errno or a non-zero syscall.Errno is itself, the os.Err* sentinels map to their errno, anything else is EIO;
     an errno anywhere in the chain wins over a sentinel (commit f2c8a14) *)
@@ -105,3 +116,34 @@ Example C03_ex_mkdir :
   backend_calls 2 "Mkdir" e = [mkbc "Mkdir" (OnFid 5) [VS "d"; VN 4095; VN p9_NoUID; VN p9_NoGID]] /\
   backend_calls 3 "Mkdir" e = [mkbc "Mkdir" (OnFid 5) [VS "d"; VN 4095; VN 1000; VN 2000]].
 Proof. vm_compute. split; reflexivity. Qed.
+
+(** ---- composed methods ---- *)
+
+(** GetXattr/ListXattrs against a server that serves the attribute's bytes: the whole value, for every payload size *)
+Theorem C03_xattr_full : forall cs (v : list N), (1 <= cs)%nat -> (0 < List.length v)%nat ->
+  (Z.of_nat (List.length v) < 9223372036854775808)%Z ->
+  fst (xattr_read true cs (XWalkOk (List.length v)) (rf_of_list v) []) = XOk v.
+Proof. exact xattr_full. Qed.
+Print Assumptions C03_xattr_full.
+
+(** whatever the replies: a value is returned only when the chunked read ended without error or with the io.EOF
+    readAt makes of an empty reply; any other error — a broken connection included — is returned instead (d1c9538) *)
+Theorem C03_xattr_no_truncation : forall cs size value tape v,
+  fst (xattr_read true cs (XWalkOk size) value tape) = XOk v ->
+  size = 0%nat \/
+  exists n e calls st, read_at cs (repeat 0%N size) 0 value tape = ((CRet n e, calls), st) /\
+                       (e = None \/ e = Some CEOF) /\ v = firstn n (rs_buf st).
+Proof. exact xattr_no_truncation_on_error. Qed.
+Print Assumptions C03_xattr_no_truncation.
+
+Theorem C03_xattr_truncation_refuted :
+  fst (xattr_read false 2 (XWalkOk 5) (rf_of_list [1;2;3;4;5]%N) [RCount 2; RErr CConn]) = XOk [1;2]%N /\
+  fst (xattr_read true 2 (XWalkOk 5) (rf_of_list [1;2;3;4;5]%N) [RCount 2; RErr CConn]) = XErr CConn.
+Proof. exact xattr_truncation_refuted. Qed.
+
+(** WalkGetAttr below version 2 is Walk followed by GetAttr(all attributes) on the walked file *)
+Theorem C03_walkgetattr_fallback : forall v e, (v < 2)%N -> e_param e "components" = VL [] ->
+  walkgetattr_calls v e false =
+  [mkbc "Walk" (OnFid (e_fid e)) [VL []]; mkbc "GetAttr" (OnFid (e_newfid e)) [VR (repeat 1%N 14)]].
+Proof. exact walkgetattr_fallback. Qed.
+Print Assumptions C03_walkgetattr_fallback.
